@@ -574,6 +574,9 @@ KEYWORDS = {'Some', 'None', 'Ok', 'Err', 'mut', 'ref', 'true', 'false', 'Dual', 
 
 
 def pat_vars(txt):
+    # `field: pattern` inside a struct pattern: the field name is not a binding (a shorthand field `P { t }` is)
+    import re as _re
+    txt = _re.sub(r'\b[a-z_][A-Za-z0-9_]*\s*:(?!:)', ' ', txt)
     return [m for m in IDENT_RE.findall(txt) if m not in KEYWORDS and not m[0].isupper() and m != '_']
 
 
